@@ -223,7 +223,9 @@ def run(ctx: Ctx) -> int:
     po = [c for c in calls_in(act_fn) if call_leaf(c) == "parse_object" and root_name(c.func) == "parser"]
     ok = len(po) == 1 and root_name(po[0].args[0]) == "init_args"
     if ok:
-        gch = guard_chain(po[0])
+        from .util import guard_atoms
+
+        gch = guard_atoms(po[0], stop=act_fn)
         ok = len(gch) == 1 and isinstance(gch[0][0], ast.Name) and gch[0][0].id == "serialize" and gch[0][1] is False
         # reached on every non-serialising, non-instantiating, non-NestedArg path
     ctx.oblige("C14.d", ok, po[0] if po else act_fn, "on the parsing path init_args are always parsed by the class's own parser" if ok else "init_args can bypass parser.parse_object on the parsing path", fn=act_fn)
